@@ -70,7 +70,17 @@ func corpus() []*animenc.History {
 
 func check(c *Ctx, h *animenc.History, stream string) {
 	rng := c.Rng.Fork()
-	o := animenc.Run(h, rng)
+	o, vkey := animenc.RunAndEval(c, h, rng, animenc.EvalLossless)
+	if h.Faulty() || h.HasRaw() {
+		// direct evaluation only: the model has no failing codec and no pre-encoded frames
+		c.D.Evaluations++
+		c.Count("stream:" + stream)
+		c.Count(fmt.Sprintf("rejected-addframes:%d", len(o.Rejected)))
+		if vkey != "" {
+			c.Count("violation:" + vkey)
+		}
+		return
+	}
 	mode := "px"
 	if o.Err == "" && o.CodecExact(h) >= 0 {
 		mode = "st" // the codec hypothesis fails on a written frame: compare the structure only
@@ -107,8 +117,8 @@ func check(c *Ctx, h *animenc.History, stream string) {
 		c.Nontrivial(animenc.Signature(h, o))
 	}
 	c.Sample(map[string]any{"canvas": fmt.Sprintf("%dx%d", h.W, h.H), "inputs": len(h.Frames), "kmin": h.Kmin, "kmax": h.Kmax, "result": animenc.Signature(h, o)})
-	if key := animenc.EvalLossless(c, h, o); key != "" {
-		c.Count("violation:" + key)
+	if vkey != "" {
+		c.Count("violation:" + vkey)
 	}
 }
 
@@ -131,6 +141,49 @@ func main() {
 			}
 			h := animenc.RandHistory(rng, maxDim, true, false, 75, classes)
 			check(c, h, "random")
+		}
+		ns := 12
+		if c.Thorough() {
+			ns = 150
+		}
+		for i := 0; i < ns; i++ {
+			for _, h := range animenc.Scenarios(c.Rng.Fork(), true, false, 75, classes) {
+				check(c, h, "scenario")
+			}
+		}
+		// error injection: some FrameEncoderFunc calls fail
+		ninj := 400
+		if c.Thorough() {
+			ninj = 5000
+		}
+		for i := 0; i < ninj; i++ {
+			rng := c.Rng.Fork()
+			h := animenc.RandHistory(rng, 8, true, false, 75, classes)
+			for k := rng.Range(1, 3); k > 0; k-- {
+				h.FailCalls = append(h.FailCalls, rng.Intn(3*len(h.Frames)))
+			}
+			check(c, h, "error-injection")
+		}
+		// the muxer's frame limit: AddFrame is refused from frame 10000 on, the file stays a valid
+		// animation of the accepted frames
+		tails := []string{"repeat-overflow"}
+		if c.Thorough() {
+			tails = []string{"", "repeat", "repeat-overflow"}
+		}
+		for _, tail := range tails {
+			check(c, animenc.LimitHistory(c.Rng.Fork(), 10000, tail), "frame-limit")
+		}
+		// pre-encoded frames mixed with optimized frames
+		nraw := 300
+		if c.Thorough() {
+			nraw = 4000
+		}
+		for i := 0; i < nraw; i++ {
+			rng := c.Rng.Fork()
+			h := animenc.RandHistory(rng, 8, true, false, 75, classes)
+			h.ICC, h.EXIF, h.XMP = nil, nil, nil
+			animenc.AddRawFrames(rng, h)
+			check(c, h, "raw-frames")
 		}
 		// unit correspondences
 		for i := 0; i < nu; i++ {
